@@ -84,12 +84,16 @@ func init() {
 		o.phase7, o.phase4 = c7.PhaseRange(), c4.PhaseRange()
 		o.rateMS, o.dop = c7.PhaseRangeRate(), c7.PhaseRangeRateDoppler()
 		o.text7, o.text4 = c7.String(), c4.String()
-		return &Obs{Line: fmt.Sprintf("r7=%d p7=%d rate=%d r4=%d p4=%d m7=%s m4=%s ms=%s", o.r7, o.ph7, o.rr, o.r4, o.ph4,
-			f64fields(o.rangeM7), f64fields(o.rangeM4), f64fields(o.rateMS)), Data: o}
+		cyc7, cyc4, dop := "-", "-", "-"
+		if o.wavelength != 0 {
+			cyc7, cyc4, dop = f64fields(o.phase7), f64fields(o.phase4), f64fields(o.dop)
+		}
+		return &Obs{Line: fmt.Sprintf("r7=%d p7=%d rate=%d r4=%d p4=%d m7=%s m4=%s ms=%s c7=%s c4=%s dop=%s", o.r7, o.ph7, o.rr, o.r4, o.ph4,
+			f64fields(o.rangeM7), f64fields(o.rangeM4), f64fields(o.rateMS), cyc7, cyc4, dop), Data: o}
 	}
 	props["C08"] = &Prop{
 		Rule: "op range <whole> <frac> <fine7> <phase7> <rate> <ratedelta> <fine4> <phase4> <constellation> <signal>: whole 0..254 and 255; fractional 0,1,1023,random; every fine field at its minimum " +
-			"('invalid'), min+1, -1, 0, 1, max, random; 4 constellations (+1 without wavelengths) x 32 signal ids; scaled integers compared with the model; range in metres (MSM4, MSM7) and rate in m/s compared BIT FOR BIT with the exact binary64 model; all floats with exact rational arithmetic " +
+			"('invalid'), min+1, -1, 0, 1, max, random; 4 constellations (+1 without wavelengths) x 32 signal ids; scaled integers compared with the model; range in metres, phase range in cycles (MSM4, MSM7), rate in m/s and Doppler in Hz compared BIT FOR BIT with the exact binary64 model; all floats with exact rational arithmetic " +
 			"to 8 ulp, wavelengths with an independent table; non-trivial = valid rough range; distinct = distinct op line",
 		Gen: func(c *Ctx, emit func(class, op string)) {
 			r := c.Rng
